@@ -177,7 +177,8 @@ def gen(ctx):
         ng = rng.choice([0, 1, 2, 3, 6, 12])
         pool = rng.sample(STRS + [""], 3)
         groups = [(rng.choice(pool), rng.choice(BOUND["u64"] + [rng.randrange(1000)]), rng.choice(BOUND["secs"])) for _ in range(ng)]
-        add("count-grouped", "CountGrouped", "n:" + ident, t.enc_count_grouped(name, groups, rng), t.expect_count_grouped(groups))
+        add("count-grouped", "CountGrouped", ("o:" + name.encode().hex()) if rng.random() < 0.25 else "n:" + ident,
+            t.enc_count_grouped(name, groups, rng), t.expect_count_grouped(groups))
     # ---- list, plain and grouped (N = 0..3)
     for _ in range(250 if not thorough else 2500):
         n = rng.choice([0, 0, 1, 2, 3])
@@ -198,7 +199,9 @@ def gen(ctx):
             ",".join("/" + hx(g[1]) for g in gs), ",".join(f"/{hx(k)}:{hx(v)}" for k, v in fields),
             "[" + ",".join(hx(v) for v, _ in rows) + "]" if n == 0 else "na",
             ",".join(f"{hx(v)}({';'.join(hx(g) for g in g_)})" for v, g_ in rows))
-        add(f"list-{n}", "List", "+".join("n:" + i for i, _ in chosen), fields, exp)
+        # a tag made by hand with a known tag's own (canonical) name is the same tag: a quarter of the lists name their tags that way
+        spec_of = lambda i, nm: ("o:" + nm.encode().hex()) if rng.random() < 0.25 else "n:" + i
+        add(f"list-{n}", "List", "+".join(spec_of(i, nm) for i, nm in chosen), fields, exp)
     # ---- playlists
     for _ in range(40):
         pl = [(rng.choice(STRS), rng.choice(TS)) for _ in range(rng.choice([0, 1, 2, 5]))]
